@@ -121,6 +121,7 @@ type Round struct {
 
 // History is the observation history of a case.
 type History struct {
+	DefaultsUsed int // parameters left at their zero value (documented defaults apply)
 	lastParsed     map[string]*m3u8x.Playlist
 	lastBody       map[string]string
 	writeStuck     bool
@@ -220,6 +221,31 @@ func New(c *media.Case, o Options) *History {
 			h.EncErrs = append(h.EncErrs, err.Error())
 			h.mu.Unlock()
 		},
+	}
+	if (uint64(c.Seed)+uint64(c.Index))%2 == 0 {
+		// half of the cases leave every parameter that has its documented default value unset
+		// (Variant: Low-Latency, SegmentCount 7, SegmentMinDuration 1 s, PartMinDuration 200 ms,
+		// SegmentMaxSize 50 MB): Start fills them in
+		if m.Variant == gohlslib.MuxerVariantLowLatency {
+			m.Variant = 0
+			h.DefaultsUsed++
+		}
+		if m.SegmentCount == 7 {
+			m.SegmentCount = 0
+			h.DefaultsUsed++
+		}
+		if m.SegmentMinDuration == time.Second {
+			m.SegmentMinDuration = 0
+			h.DefaultsUsed++
+		}
+		if m.PartMinDuration == 200*time.Millisecond {
+			m.PartMinDuration = 0
+			h.DefaultsUsed++
+		}
+		if m.SegmentMaxSize == 50*1024*1024 {
+			m.SegmentMaxSize = 0
+			h.DefaultsUsed++
+		}
 	}
 	if c.Cfg.Disk {
 		d, err := os.MkdirTemp("", "vmux")
